@@ -403,6 +403,82 @@ def scanner_guards(P, chk):
         chk.require(integral, R_GUARD, "from_str|grouping commas only before the decimal point", b.loc(sb),
                     "a comma is accepted without `scale` being None, i.e. also among the decimals: `1.2,345` reads as 1.2345",
                     "scale.is_none() in force at comma_pos = Some(..)")
+    # --- the first comma closes a leading group of one to three digits: on every path that takes the grouping transition
+    # with `comma_pos` still None, the group is bounded from both sides - two ordering tests, or one ordering test plus a
+    # "digit seen" flag, or one range test.  (Which constants they use is not decided here.)
+    for sb in cstores:
+        start = None
+        for h_, blks_ in b.loops().items():
+            if sb in blks_:
+                for x_ in blks_:
+                    t_ = b.term(x_)
+                    if t_["k"] == "call" and callee_def(t_) == "std::iter::Iterator::next" and "Bytes" in b.local_ty(t_["args"][0]["place"]["l"]):
+                        start = t_["target"]
+        if start is not None:
+            ds0 = mir.describe_switch(b, start)
+            start = None
+            for tb_, labs_ in (ds0[2].items() if ds0 else ()):
+                if "Some" in labs_:
+                    start = tb_     # the loop body proper: one byte in hand
+        if start is None:
+            chk.anchor_missing("from_str: body of the byte loop not found")
+            continue
+        try:
+            paths = [p_ for p_ in mir.enumerate_paths(b, limit=20000, start=start) if sb in p_.blocks]
+        except mir.TooManyPaths:
+            chk.require(False, R_GUARD, "from_str|leading group of one to three digits", b.loc(sb), "scanner not analysable: too many paths",
+                        "two-sided bound on the first digit group")
+            continue
+        chk.add_paths(len(paths))
+        first, bad = 0, []
+        cp_roots = set((r.kind, r.name, r.site) for r in prov(b, {"l": cpos, "p": []}))
+
+        def is_cp(roots):
+            return bool(roots) and all((r.kind, r.name, r.site) in cp_roots for r in roots)
+        digit_flags = set()
+        for l_, decl_ in enumerate(b.locals):
+            if decl_["name"] and norm(decl_["ty"]) == "bool":
+                ds_ = [d for d in b.defs().get(l_, []) if not d[3]["p"]]
+                if ds_ and any(d[0] == "assign" and d[4]["k"] == "use" and d[4]["op"].get("int") == 1 and
+                               any(cn.endswith("is_ascii_digit") and lab is True for cn, lab, ct in q.guard_calls(b, d[1])) for d in ds_) \
+                        and all(d[0] == "assign" and d[4]["k"] == "use" and d[4]["op"].get("int") in (0, 1) for d in ds_):
+                    digit_flags.add(l_)
+        for p_ in paths:
+            upto = p_.blocks.index(sb)
+            before = set(p_.blocks[:upto])
+            atoms = [a for a in p_.atoms if a.bb in before]
+            is_first = subsequent = False
+            orderings, ranges, flag = set(), 0, False
+            for a in atoms:
+                if a.kind == "variant" and is_cp(a.subject):
+                    if list(a.label) == ["None"]:
+                        is_first = True
+                    elif "Some" in a.label:
+                        subsequent = True
+                elif a.kind == "call" and short(a.subject[0]) in ("is_none", "is_some") and a.subject[1] and is_cp(a.subject[1][0]):
+                    v = (short(a.subject[0]) == "is_none") == (True in a.label)
+                    is_first = is_first or v
+                    subsequent = subsequent or not v
+                elif a.kind == "call" and short(a.subject[0]) == "eq" and True in a.label and any(is_cp(x) for x in a.subject[1]):
+                    subsequent = True       # comma_pos == Some(i) held: not the first comma
+                elif a.kind == "cmp" and len(a.label) == 1 and a.subject[0] in ("Lt", "Le", "Gt", "Ge", "Ne"):
+                    orderings.add((a.subject[0], a.subject[1], a.subject[2], a.label[0]))
+                elif a.kind == "call" and short(a.subject[0]) == "contains" and "Range" in a.subject[0] and True in a.label:
+                    ranges += 1
+                elif a.kind in ("bool", "int") and (True in a.label or "1" in [str(x) for x in a.label]):
+                    sw_d = b.term(a.bb)["discr"]
+                    if q.named_local(b, sw_d) in digit_flags:
+                        flag = True
+            if not is_first or subsequent:
+                continue
+            first += 1
+            if not (len(orderings) >= 2 or ranges or (orderings and flag)):
+                bad.append("%d ordering test(s), %d range test(s), digit flag %s" % (len(orderings), ranges, flag))
+        chk.require(first > 0 and not bad, R_GUARD, "from_str|leading group of one to three digits", b.loc(sb),
+                    ("no path takes the first comma with comma_pos None" if not first else
+                     "a first comma is accepted under %s: the leading group is bounded on one side only (`,250` or `1234,567` is "
+                     "accepted)" % (bad or ["-"])[0]),
+                    "on every first-comma path: two ordering tests, or one plus a digit-seen flag, or a range test (%d paths)" % first)
     # --- after the loop
     loops = b.loops()
     hdr = None
